@@ -13,6 +13,14 @@ Campaigns
   a  every /repo/tests/*.bz2 and /repo/tests/suite/manual-expand/*.bz2.
   b  bz2.compress of generated inputs at levels 1..9 (+ concatenations,
      trailing data, crafted randomised blocks).
+  g  a small independent bzip2 encoder inside this script with every degree
+     of freedom open (random complete tables incl. 20-bit codes, 2..6 tables,
+     zig-zag delta codes, surplus selectors up to 32767, unused incomplete /
+     oversubscribed tables, randomised blocks, blocks at all bit offsets) and
+     one crafted defect per case (origPtr, bitmap, nGroups, selectors, start
+     lengths, excursions out of 1..20, missing EOB, CRCs, magics, capacity).
+  i  the inspector: verdicts on the producer-side rules of C02 and every
+     reported field against what the script's encoder chose.
   c  single-bit flips and truncations of small valid files.
 
 Rule: Spec accepts  =>  libbz2 accepts with identical bytes.   (hard failure)
@@ -20,7 +28,7 @@ Rule: Spec accepts  =>  libbz2 accepts with identical bytes.   (hard failure)
       strictness cases (`used-table-not-complete`, `missing-count`); listed.
       Anything else is a disagreement -> exit 1.
 
-usage: spec_xcheck.py [--tier quick|thorough] [--only T,a,b,c] [-j N]
+usage: spec_xcheck.py [--tier quick|thorough] [--only T,a,b,g,i,c] [-j N]
 env:   LBZDRV (driver binary), VERIF_SEED, LBZ_REPO
 """
 import bz2
@@ -164,7 +172,8 @@ class Stats:
 
 def compare_all(st, jobs, per_batch=40):
     """jobs: list of (label, data[, expect]); expect: None | 'ok' | 'err' = what
-    BOTH sides must say (generated cases)."""
+    BOTH sides must say (generated cases); 'strict' = the Spec must reject for
+    one of the documented strictness reasons, libbz2 may do either."""
     jobs = [(j[0], j[1], j[2] if len(j) > 2 else None) for j in jobs]
     replies = ask_all(['decodesum ' + hx(d) for (_, d, _) in jobs], per_batch)
     with cf.ThreadPoolExecutor(max_workers=NTHREADS) as ex:
@@ -184,8 +193,8 @@ def compare_all(st, jobs, per_batch=40):
                 st.both_ok += 1
                 if len(ref[1]) <= 65536:
                     second.append(k)
-            if expect == 'err' and not problem:
-                problem = 'expected rejection, both accept'
+            if expect in ('err', 'strict') and not problem:
+                problem = 'expected rejection (%s), both accept' % expect
         elif r.startswith('err '):
             why = r[4:]
             st.reasons[why] = st.reasons.get(why, 0) + 1
@@ -199,6 +208,10 @@ def compare_all(st, jobs, per_batch=40):
                 st.both_rej += 1
             if expect == 'ok' and not problem:
                 problem = 'expected acceptance, Spec says %s, libbz2 %s' % (why, ref[1])
+            if expect == 'strict' and why not in DOCUMENTED and not problem:
+                problem = 'expected a documented-strictness rejection, Spec says %s' % why
+            if expect == 'err' and ref[0] == 'ok' and not problem:
+                problem = 'expected rejection by both, libbz2 accepts (Spec: %s)' % why
         else:
             problem = 'driver answered: ' + r[:60]
         if problem:
@@ -310,6 +323,389 @@ def craft_randomised(rng, rnums, n, level=9):
     return v.to_bytes(len(c), 'big'), bytes(p)
 
 
+# ------------------------------------------- structured stream generator (g)
+# A small independent bzip2 ENCODER with every degree of freedom of the format
+# left to the caller / a random source, used to reach streams that libbz2's
+# own encoder never writes (arbitrary tables, zig-zag delta codes, surplus
+# selectors, unused incomplete tables, blocks at any bit offset, randomised
+# blocks ...) and single crafted defects.
+class BitW:
+    def __init__(self):
+        self.buf = bytearray()
+        self.acc = 0
+        self.nacc = 0
+        self.n = 0
+
+    def put(self, nbits, val):
+        assert 0 <= val < (1 << nbits)
+        self.acc = (self.acc << nbits) | val
+        self.nacc += nbits
+        self.n += nbits
+        while self.nacc >= 8:
+            self.nacc -= 8
+            self.buf.append(self.acc >> self.nacc)
+            self.acc &= (1 << self.nacc) - 1
+
+    def pad(self):
+        self.put((-self.n) % 8, 0)
+
+    def bytes(self):
+        assert self.nacc == 0
+        return bytes(self.buf)
+
+
+def rle1(data, maxrun=259):
+    """first run-length layer; runs of 4..maxrun become 4 bytes + count
+    (lbzip2 uses counts up to 255, libbz2's encoder stops at run length 255)"""
+    out, i = bytearray(), 0
+    while i < len(data):
+        j = i
+        while j < len(data) and data[j] == data[i] and j - i < maxrun:
+            j += 1
+        k = j - i
+        if k >= 4:
+            out += bytes([data[i]]) * 4 + bytes([k - 4])
+        else:
+            out += bytes([data[i]]) * k
+        i = j
+    return bytes(out)
+
+
+def bwt(x):
+    """rotation sort; keys are prefixes of the rotations, lengthened until they
+    separate all rotations (or cover them entirely)"""
+    n = len(x)
+    xx = x + x
+    k = 64
+    while True:
+        k = min(k, n)
+        rot = sorted(range(n), key=lambda i: xx[i:i + k])
+        if k == n or all(xx[rot[j]:rot[j] + k] != xx[rot[j + 1]:rot[j + 1] + k]
+                         for j in range(n - 1)):
+            break
+        k *= 4
+    return bytes(xx[i + n - 1] for i in rot), rot.index(0)
+
+
+def mtf_rle2(l):
+    used = sorted(set(l))
+    m = list(used)
+    out, run = [], 0
+
+    def flush():
+        nonlocal run
+        while run > 0:            # bijective base 2, least significant first
+            if run & 1:
+                out.append(0)
+                run = (run - 1) >> 1
+            else:
+                out.append(1)
+                run = (run - 2) >> 1
+    for b in l:
+        i = m.index(b)
+        if i == 0:
+            run += 1
+        else:
+            flush()
+            out.append(i + 1)
+            m.insert(0, m.pop(i))
+    flush()
+    out.append(len(used) + 1)     # EOB
+    return used, out
+
+
+def random_complete_lengths(rng, n, deep=False):
+    leaves = [0]
+    while len(leaves) < n:
+        c = [i for i, d in enumerate(leaves) if d < 20]
+        i = max(c, key=lambda i: leaves[i]) if deep and rng.random() < 0.8 else rng.choice(c)
+        d = leaves.pop(i)
+        leaves += [d + 1, d + 1]
+    rng.shuffle(leaves)
+    return leaves
+
+
+def canonical(lens):
+    codes, code, prev = {}, 0, 0
+    for l, s in sorted((l, s) for s, l in enumerate(lens)):
+        code <<= (l - prev)
+        codes[s] = (l, code)
+        code += 1
+        prev = l
+    return codes
+
+
+def delta_path(rng, cur, target, zig):
+    """bit pairs moving cur -> target inside 1..20, with optional detours"""
+    ops = []
+    while True:
+        if zig and rng.random() < 0.3:
+            step = rng.choice([1, -1])
+            if 1 <= cur + step <= 20:
+                ops.append(step)
+                cur += step
+                continue
+        if cur == target:
+            return ops
+        step = 1 if target > cur else -1
+        ops.append(step)
+        cur += step
+
+
+def enc_block(w, rng, block, opt, info=None):
+    """block = bytes of the first RLE layer (what BWT sees).  opt: dict of
+    choices/defects.  Writes magic..EOB; returns the CRC field written."""
+    plain = opt['plain']
+    w.n_at_start = w.n
+    l, idx = bwt(block)
+    used, syms = mtf_rle2(l)
+    alpha = len(used) + 2
+    w.put(48, opt.get('magic', 0x314159265359))
+    crc = opt.get('crc', crc_bz(plain))
+    w.put(32, crc)
+    w.put(1, 1 if opt.get('rand') else 0)
+    w.put(24, opt.get('origPtr', idx))
+    rows = [0] * 16
+    for b in (used if not opt.get('empty_bitmap') else []):
+        rows[b >> 4] |= 0x8000 >> (b & 15)
+    big = 0
+    for i in range(16):
+        if rows[i]:
+            big |= 0x8000 >> i
+    w.put(16, big)
+    for i in range(16):
+        if rows[i]:
+            w.put(16, rows[i])
+    ng = opt.get('nGroups', rng.randint(2, 6))
+    w.put(3, opt.get('nGroups_field', ng))
+    need = (len(syms) + 49) // 50
+    # tables
+    tables = []
+    for t in range(ng):
+        tables.append(random_complete_lengths(rng, alpha, deep=opt.get('deep', False)))
+    good = list(range(ng))
+    bad_t = opt.get('bad_table')          # (kind, used?)
+    if bad_t:
+        kind, is_used = bad_t
+        t = rng.randrange(ng)
+        s = rng.randrange(alpha)
+        if kind == 'incomplete':
+            if tables[t][s] == 20:
+                s = min(range(alpha), key=lambda i: tables[t][i])
+            tables[t][s] += 1
+        else:
+            if tables[t][s] == 1:
+                s = max(range(alpha), key=lambda i: tables[t][i])
+            tables[t][s] -= 1
+        if is_used:
+            good = [t]
+        else:
+            good = [g for g in good if g != t]
+    sels = [rng.choice(good) for _ in range(need)]
+    if opt.get('few_selectors') and need > 1:
+        sels = sels[:-1]
+    surplus = opt.get('surplus', 0)
+    sels_all = sels + [rng.randrange(ng) for _ in range(surplus)]
+    nsel_field = opt.get('nSelectors_field', len(sels_all))
+    w.put(15, nsel_field)
+    m = list(range(ng))
+    for k, t in enumerate(sels_all):
+        j = m.index(t)
+        bs = opt.get('bad_selector')
+        if bs is not None and bs % len(sels_all) == k:
+            j = ng
+        w.put(j + 1, ((1 << j) - 1) << 1)
+        m.insert(0, m.pop(m.index(t)))
+    for t in range(ng):
+        lens = tables[t]
+        start = opt.get('start_len', {}).get(t, rng.randint(1, 20))
+        w.put(5, start)
+        cur = start if 1 <= start <= 20 else lens[0]
+        exc = opt.get('excursion')       # (table, symbol, kind)
+        for s_i, target in enumerate(lens):
+            if exc and exc[0] == t and exc[1] == s_i:
+                # leave 1..20 and come straight back
+                if exc[2] == 'hi':
+                    for st in delta_path(rng, cur, 20, False):
+                        w.put(2, 2 if st > 0 else 3)
+                    w.put(2, 2)
+                    w.put(2, 3)
+                    cur = 20
+                else:
+                    for st in delta_path(rng, cur, 1, False):
+                        w.put(2, 2 if st > 0 else 3)
+                    w.put(2, 3)
+                    w.put(2, 2)
+                    cur = 1
+            for st in delta_path(rng, cur, target, opt.get('zig', False)):
+                w.put(2, 2 if st > 0 else 3)
+            w.put(1, 0)
+            cur = target
+    codes = [canonical(t) for t in tables]
+    if info is not None:
+        fr = [[0] * alpha for _ in range(ng)]
+        for i, sy in enumerate(syms):
+            if i // 50 < len(sels_all):
+                fr[sels_all[i // 50]][sy] += 1
+        info.update(origPtr=idx, nGroups=ng, tables=[list(t) for t in tables],
+                    selectors=list(sels_all), nSelectorsUsed=need, nSyms=len(syms),
+                    nblock=len(block), size=len(plain), crc=crc, alphaSize=alpha,
+                    rand=1 if opt.get('rand') else 0, freqs=fr, start=w.n_at_start)
+    if opt.get('no_eob'):
+        syms = syms[:-1]
+    for i, s in enumerate(syms):
+        g = i // 50
+        t = sels[g] if g < len(sels) else sels_all[g] if g < len(sels_all) else 0
+        ln, c = codes[t][s]
+        w.put(ln, c & ((1 << ln) - 1))    # (wraps only for oversubscribed tables)
+    return crc
+
+
+def combine_crcs(cs):
+    c = 0
+    for x in cs:
+        c = (((c << 1) | (c >> 31)) & 0xFFFFFFFF) ^ x
+    return c
+
+
+def enc_stream(w, rng, level, blocks, opt=None, infos=None):
+    """blocks: list of (plain, block_bytes, block_opt)."""
+    opt = opt or {}
+    w.put(32, 0x425A6830 + level)
+    crcs = []
+    for plain, blk, bo in blocks:
+        bo = dict(bo)
+        bo['plain'] = plain
+        info = {}
+        crcs.append(enc_block(w, rng, blk, bo, info))
+        info['end'] = w.n
+        if infos is not None:
+            infos.append(info)
+    w.put(48, opt.get('eos', 0x177245385090))
+    w.put(32, opt.get('stream_crc', combine_crcs(crcs)))
+    if opt.get('pad_ones'):
+        k = (-w.n) % 8
+        w.put(k, (1 << k) - 1)
+    else:
+        w.pad()
+
+
+def gen_plain(rng, n):
+    kind = rng.randrange(5)
+    if kind == 0:
+        return rng.randbytes(n)
+    if kind == 1:
+        return bytes(rng.choice(b'ab') for _ in range(n))
+    if kind == 2:
+        out = bytearray()
+        while len(out) < n:
+            out += bytes([rng.randrange(256)]) * rng.choice([1, 2, 3, 4, 5, 7, 30, 259, 260, 300])
+        return bytes(out[:n])
+    if kind == 3:
+        return words_text(rng, n)
+    return bytes([rng.randrange(256)]) * n
+
+
+def randomise(rnums, blk):
+    b = bytearray(blk)
+    for j in rand_positions(rnums, len(b)):
+        b[j] ^= 1
+    return bytes(b)
+
+
+def gen_cases(rng, rnums, count):
+    """-> list of (label, data, expect) with expect in ok / err / strict"""
+    cases = []
+
+    def one_stream(label, expect, level=None, nblocks=None, bopt=None, sopt=None,
+                   sizes=None, tail=b'', prefix=b'', plain_fn=None):
+        w = BitW()
+        level = level or rng.randint(1, 9)
+        blocks = []
+        for _ in range(nblocks or rng.randint(1, 3)):
+            plain = (plain_fn or gen_plain)(rng, rng.choice(sizes or [1, 2, 5, 60, 300, 1200]))
+            blk = rle1(plain)
+            o = dict(bopt(len(blk)) if callable(bopt) else (bopt or {}))
+            if o.get('rand'):
+                # the block that is BWT-coded is the randomised form
+                blk = randomise(rnums, blk)
+            blocks.append((plain, blk, o))
+        enc_stream(w, rng, level, blocks, sopt)
+        cases.append((label, prefix + w.bytes() + tail, expect))
+
+    for i in range(count):
+        one_stream('g-valid%d' % i, 'ok', bopt=lambda n: {
+            'zig': rng.random() < 0.5, 'deep': rng.random() < 0.3,
+            'surplus': rng.choice([0, 0, 1, 7, 200]),
+            'rand': rng.random() < 0.25,
+            'bad_table': rng.choice([None, None, ('incomplete', False), ('over', False)])})
+    one_stream('g-surplus-max', 'ok', nblocks=1, sizes=[40],
+               bopt=lambda n: {'surplus': 32767 - 1})
+    one_stream('g-surplus-18002', 'ok', nblocks=1, sizes=[40],
+               bopt=lambda n: {'surplus': 18002 - 1})
+    one_stream('g-rand-big', 'ok', nblocks=2, sizes=[3000], bopt={'rand': True})
+    one_stream('g-pad-ones', 'ok', sopt={'pad_ones': True})
+    # concatenation of crafted streams: blocks land on every bit offset
+    w = BitW()
+    for k in range(6):
+        p = gen_plain(rng, 50 + k)
+        enc_stream(w, rng, 1 + k, [(p, rle1(p), {'zig': True})])
+    cases.append(('g-concat6', w.bytes(), 'ok'))
+    # documented strictness
+    for i in range(max(2, count // 10)):
+        one_stream('g-used-incomplete%d' % i, 'strict', nblocks=1,
+                   bopt={'bad_table': ('incomplete', True)})
+        one_stream('g-used-oversubscribed%d' % i, 'strict', nblocks=1,
+                   bopt={'bad_table': ('over', True)})
+    for tailrun in (b'aaaa', b'xyzzzz', b'\0\0\0\0'):
+        w = BitW()
+        blk = b'hello ' + tailrun
+        # the plaintext libbz2 would produce if it read the run as 4 + count 0
+        enc_stream(w, rng, 3, [(blk, blk, {})])
+        cases.append(('g-missing-count-%s' % tailrun.hex(), w.bytes(), 'strict'))
+    # single defects: both must reject
+    defects = [
+        ('origptr-n', lambda n: {'origPtr': n}),
+        ('origptr-max', lambda n: {'origPtr': (1 << 24) - 1}),
+        ('empty-bitmap', lambda n: {'empty_bitmap': True}),
+        ('ngroups-0', lambda n: {'nGroups': 2, 'nGroups_field': 0}),
+        ('ngroups-1', lambda n: {'nGroups': 2, 'nGroups_field': 1}),
+        ('ngroups-7', lambda n: {'nGroups': 6, 'nGroups_field': 7}),
+        ('nselectors-0', lambda n: {'nSelectors_field': 0}),
+        ('few-selectors', lambda n: {'few_selectors': True}),
+        ('bad-selector', lambda n: {'bad_selector': 0}),
+        ('bad-surplus-selector', lambda n: {'surplus': 3, 'bad_selector': -1}),
+        ('start-0', lambda n: {'start_len': {0: 0}}),
+        ('start-21', lambda n: {'start_len': {1: 21}}),
+        ('start-31', lambda n: {'start_len': {0: 31}}),
+        ('excursion-hi', lambda n: {'excursion': (1, 0, 'hi')}),
+        ('excursion-lo', lambda n: {'excursion': (0, 1, 'lo')}),
+        ('excursion-hi-3', lambda n: {'excursion': (2, 2, 'hi'), 'nGroups': 3}),
+        ('no-eob', lambda n: {'no_eob': True}),
+        ('block-crc', lambda n: {'crc': 12345}),
+        ('block-magic', lambda n: {'magic': 0x314159265358}),
+    ]
+    for name, f in defects:
+        for rep in range(2):
+            if name == 'few-selectors':
+                one_stream('g-defect-%s-%d' % (name, rep), 'err', nblocks=1, bopt=f,
+                           sizes=[120, 400], plain_fn=lambda r, n: r.randbytes(n))
+            else:
+                one_stream('g-defect-%s-%d' % (name, rep), 'err', nblocks=1, bopt=f)
+    one_stream('g-defect-eos', 'err', sopt={'eos': 0x177245385091})
+    one_stream('g-defect-stream-crc', 'err', nblocks=2, sopt={'stream_crc': 1})
+    # capacity: level 1 holds 100000 bytes after RLE1
+    for n, exp in ((99999, 'ok'), (100000, 'ok'), (100001, 'err')):
+        w = BitW()
+        while True:
+            blk = rng.randbytes(n)
+            if no_run4(blk):
+                break
+        enc_stream(w, rng, 1, [(blk, blk, {})])
+        cases.append(('g-cap-%d' % n, w.bytes(), exp))
+    return cases
+
+
 # ------------------------------------------------------------------ campaigns
 def campaign_tables(st):
     lib = ctypes.CDLL(ctypes.util.find_library('bz2'))
@@ -332,6 +728,114 @@ def campaign_tables(st):
     if crc_bz(b'123456789') != 0xFC891918:
         st.bad.append(('crc_bz', 'python helper wrong', ''))
     return rn
+
+
+def campaign_inspect(st, rng, rn, thorough):
+    """The inspector: verdicts on C02's producer rules and the reported fields."""
+    lines, checks = [], []
+
+    def add(label, data, expect, fields=None):
+        lines.append('inspect ' + hx(data))
+        checks.append((label, data, expect, fields))
+
+    # libbz2's own encoder output is strictly well-formed
+    for name, plain in [('empty', b''), ('one', b'x'), ('text', words_text(rng, 3000)),
+                        ('runs', b'a' * 700 + b'b' * 4 + b'c' * 259),
+                        ('rand', rng.randbytes(5000)),
+                        ('multi', rng.randbytes(250000))]:
+        for lvl in (1, 9):
+            c = bz2.compress(plain, lvl)
+            f = {'level': lvl, 'size': len(plain), 'crc': crc_bz(plain)}
+            if len(rle1(plain, 255)) <= lvl * 100000 - 19 and plain:
+                f['nblocks'] = 1
+                f['nblock0'] = len(rle1(plain, 255))
+            add('bz2-%s@%d' % (name, lvl), c, 'ok', f)
+    s1 = bz2.compress(b'hello', 9)
+    add('two-streams', s1 + s1, 'err trailing-data')
+    add('trailing-nul', s1 + b'\0', 'err trailing-data')
+    add('bad-crc', s1[:-3] + bytes([s1[-3] ^ 1]) + s1[-2:], None)
+    # crafted streams with known parameters
+    for i in range(60 if not thorough else 400):
+        w = BitW()
+        level = rng.randint(1, 9)
+        kind = rng.choice(['plain', 'plain', 'plain', 'rand', 'unused-incomplete',
+                           'unused-over', 'selectors'])
+        blocks = []
+        for _ in range(rng.randint(1, 3)):
+            plain = gen_plain(rng, rng.choice([1, 5, 60, 300, 1200]))
+            blk = rle1(plain)
+            o = {'zig': rng.random() < 0.5, 'surplus': rng.choice([0, 0, 3])}
+            blocks.append([plain, blk, o])
+        victim = rng.choice(blocks)
+        exp = 'ok'
+        if kind == 'rand':
+            victim[2]['rand'] = True
+            victim[1] = randomise(rn, victim[1])
+            exp = 'err randomised'
+        elif kind == 'unused-incomplete':
+            victim[2]['bad_table'] = ('incomplete', False)
+            victim[2]['nGroups'] = rng.randint(3, 6)
+            exp = 'err incomplete-table'
+        elif kind == 'unused-over':
+            victim[2]['bad_table'] = ('over', False)
+            victim[2]['nGroups'] = rng.randint(3, 6)
+            exp = 'err incomplete-table'
+        elif kind == 'selectors':
+            n = rng.choice([18001, 18002, 18003, 32767])
+            need = 1 + len(victim[1]) // 50 + 2
+            victim[2]['surplus'] = n - need     # approximately; exact count checked below
+        infos = []
+        enc_stream(w, rng, level, [tuple(b) for b in blocks], infos=infos)
+        if kind == 'selectors':
+            exp = 'ok' if all(len(x['selectors']) <= 18002 for x in infos) else \
+                'err too-many-selectors'
+        add('crafted%d-%s' % (i, kind), w.bytes(), exp,
+            {'level': level, 'blocks': infos} if exp == 'ok' else None)
+    replies = ask_all(lines, per_batch=10)
+    for (label, data, expect, fields), r in zip(checks, replies):
+        st.n += 1
+        prob = None
+        if expect is not None and expect != 'ok' and r != expect:
+            prob = 'inspect says %s, expected %s' % (r[:60], expect)
+        elif expect == 'ok':
+            if not r.startswith('ok '):
+                prob = 'inspect says %s, expected ok' % r[:60]
+            else:
+                st.both_ok += 1
+                rep = json.loads(r[3:])
+                if len(rep['streams']) != 1:
+                    prob = 'not exactly one stream reported'
+                else:
+                    s = rep['streams'][0]
+                    got = {'level': s['level'], 'size': rep['size'], 'crc': rep['crc'],
+                           'nblocks': len(s['blocks'])}
+                    if s['blocks']:
+                        got['nblock0'] = s['blocks'][0]['nblock']
+                    for k, v in fields.items():
+                        if k == 'blocks':
+                            if len(v) != len(s['blocks']):
+                                prob = 'block count'
+                                break
+                            for want, b in zip(v, s['blocks']):
+                                for kk, vv in want.items():
+                                    if b.get(kk) != vv:
+                                        prob = 'block field %s: reported %s, encoder chose %s' % (
+                                            kk, str(b.get(kk))[:80], str(vv)[:80])
+                        elif got.get(k) != v:
+                            prob = 'field %s: reported %s, expected %s' % (k, got.get(k), v)
+                    if not prob and rep['size'] != sum(b['size'] for b in s['blocks']):
+                        prob = 'sizes do not add up'
+                    if not prob and s['end'] != 8 * len(data):
+                        prob = 'stream end offset %d != file bits %d' % (s['end'], 8 * len(data))
+        else:
+            if r.startswith('ok '):
+                prob = 'inspect accepts a damaged stream'
+        if r.startswith('err '):
+            st.both_rej += 1
+            st.reasons[r[4:]] = st.reasons.get(r[4:], 0) + 1
+        if prob:
+            st.bad.append((label, prob, hx(data) if len(data) <= 2048 else ''))
+
 
 
 def main():
@@ -446,13 +950,33 @@ def main():
                       len(st.bad), st.full_bytes, time.time() - t0), flush=True)
         small_valid = [(l, d) for (l, d, e) in jobs if e == 'ok' and len(d) <= 160]
 
+    # ---------------------------------------------------------------- (g)
+    if want('g'):
+        st = stats['g'] = Stats()
+        jobs = gen_cases(rng, rn, 1500 if thorough else 150)
+        compare_all(st, jobs)
+        print('[g] structured generator: %d streams, both accept %d, both reject %d, '
+              'documented %d, problems %d, byte-exact comparisons %d  (%.0fs)' % (
+                  st.n, st.both_ok, st.both_rej, len(st.documented), len(st.bad),
+                  st.full_bytes, time.time() - t0), flush=True)
+        print('    Spec rejection reasons:', json.dumps(st.reasons, sort_keys=True))
+
+    # ---------------------------------------------------------------- (i)
+    if want('i'):
+        st = stats['i'] = Stats()
+        campaign_inspect(st, rng, rn, thorough)
+        print('[i] inspector: %d streams, accepted %d (all reported fields compared), '
+              'rejected %d, problems %d  (%.0fs)' % (
+                  st.n, st.both_ok, st.both_rej, len(st.bad), time.time() - t0), flush=True)
+        print('    inspect rejection reasons:', json.dumps(st.reasons, sort_keys=True))
+
     # ---------------------------------------------------------------- (c)
     if want('c'):
         st = stats['c'] = Stats()
         bases = []
         for f in ('32767.bz2', 'codelen20.bz2', 'concat.bz2', 'gap.bz2', 'rand.bz2',
-                  'trash.bz2', 'empty.bz2', 'incomp-1.bz2', 'incomp-2.bz2', 'fib.bz2',
-                  'repet.bz2'):
+                  'trash.bz2', 'empty.bz2', 'incomp-1.bz2', 'incomp-2.bz2') + (
+                      ('fib.bz2', 'repet.bz2') if thorough else ()):
             p = os.path.join(REPO, 'tests', f)
             if os.path.exists(p):
                 bases.append((f, open(p, 'rb').read()))
